@@ -1051,7 +1051,10 @@ bool Builder::FinishCommand(BuildResult::CommandCompleted& result,
     }
   }
 
-  if (scan_.build_log()) {
+  // (not in a dry run: the log is not written then, but its entries in memory
+  // would say that the command has run, and the graph is scanned a second time
+  // after the manifest's prerequisites have been "built")
+  if (scan_.build_log() && !config_.dry_run) {
     if (!scan_.build_log()->RecordCommand(
             edge, static_cast<int>(start_time_millis),
             static_cast<int>(end_time_millis), record_mtime)) {
